@@ -9,12 +9,21 @@ verus! {
 pub struct BoxedDowncastErr;
 #[verifier::external_body] #[verifier::reject_recursive_types(K)] #[verifier::reject_recursive_types(M)]
 pub struct ReplyPort<K, M> { _p: core::marker::PhantomData<(K, M)> }
-pub trait Message: Sized {}
+/// the inner message type: its own serialize/deserialize are user code (may fail, ASSUMED not to panic; the derive-generated ones
+/// are covered by unit derive)
+pub trait Message: Sized {
+    fn serialize(self) -> Result<SerializedMessage, BoxedDowncastErr>;
+    fn deserialize(bytes: SerializedMessage) -> Result<Self, BoxedDowncastErr>;
+}
 /// BytesConvertable stand-in: user key decoding may panic on garbage (documented contract of the trait); the bytes it is
 /// given are recorded so the contract can say WHICH bytes went where
 pub trait JobKey: Sized {
     spec fn decoded_from(bytes: Seq<u8>) -> Self;
+    /// the bytes the key encodes to
+    spec fn encoded(&self) -> Seq<u8>;
     fn from_bytes(bytes: Vec<u8>) -> (r: Self) ensures r == Self::decoded_from(bytes@);
+    /// (A-alloc: a Vec never holds more than isize::MAX bytes)
+    fn into_bytes(self) -> (r: Vec<u8>) ensures r@ == self.encoded(), r@.len() <= isize::MAX;
 }
 #[verifier::external_body] pub struct JobOptions { _p: u8 }
 impl JobOptions {
@@ -22,5 +31,37 @@ impl JobOptions {
     /// total for every input (any length): contract of the real impl, not proved here (reads the clock / tracing span)
     #[verifier::external_body]
     pub fn from_bytes(data: Vec<u8>) -> (r: JobOptions) ensures r == JobOptions::decoded_from(data@) { unimplemented!() }
+    pub uninterp spec fn encoded(&self) -> Seq<u8>;
+    /// "exactly 16 bytes" (contract of the real impl: two big-endian u64 halves)
+    #[verifier::external_body]
+    pub fn into_bytes(self) -> (r: Vec<u8>) ensures r@ == self.encoded(), r@.len() == 16 { unimplemented!() }
 }
+/// the caller's wire reply port: opaque
+#[verifier::external_body] pub struct WirePort { _p: u8 }
+/// `vec![x; n]` (R23)
+#[verifier::external_body]
+pub fn vx_vec_repeat(x: u8, n: usize) -> (r: Vec<u8>)
+    ensures r@.len() == n, forall|i: int| 0 <= i < n ==> #[trigger] r@[i] == x,
+{ unimplemented!() }
+/// `v[a..b].copy_from_slice(src)` (R22): panics unless the lengths agree and the range is inside `v`
+#[verifier::external_body]
+pub fn vx_copy_into(v: &mut Vec<u8>, a: usize, b: usize, src: &Vec<u8>)
+    requires a <= b <= old(v)@.len(), src@.len() == b - a,
+    ensures final(v)@.len() == old(v)@.len(),
+        forall|i: int| 0 <= i < old(v)@.len() ==> #[trigger] final(v)@[i] == (if a <= i < b { src@[i - a] } else { old(v)@[i] }),
+{ unimplemented!() }
+/// `v[a..].copy_from_slice(src)` (R22)
+#[verifier::external_body]
+pub fn vx_copy_into_tail(v: &mut Vec<u8>, a: usize, src: &Vec<u8>)
+    requires a <= old(v)@.len(), src@.len() == old(v)@.len() - a,
+    ensures final(v)@.len() == old(v)@.len(),
+        forall|i: int| 0 <= i < old(v)@.len() ==> #[trigger] final(v)@[i] == (if a <= i { src@[i - a] } else { old(v)@[i] }),
+{ unimplemented!() }
+/// what serialize_meta writes is split by deserialize_meta into exactly the two encodings it was built from (so a key / options
+/// pair whose own codec round-trips, unit codecs, round-trips through the job metadata)
+// @props C19
+pub proof fn lemma_meta_roundtrip(o: Seq<u8>, k: Seq<u8>)
+    requires o.len() == 16,
+    ensures (o + k).len() >= 16, (o + k).subrange(0, 16) =~= o, (o + k).subrange(16, (o + k).len() as int) =~= k,
+{}
 } // verus!
